@@ -6,7 +6,7 @@ import collections.abc
 from bisect import bisect_left, bisect_right
 from pathlib import Path
 from numbers import Number
-from operator import truediv, sub, mul, itemgetter, methodcaller
+from operator import truediv, sub, mul, gt, itemgetter, methodcaller
 from abc import abstractmethod
 from collections import defaultdict
 from dataclasses import dataclass, astuple, field, replace
@@ -266,11 +266,6 @@ class Table:
 
         if self._lohis: self._lohis = {}
 
-        if self._indexes:
-            #the appended rows are not in index order so we re-sort
-            indexes,self._indexes = self._indexes,()
-            self.index(*indexes)
-
         return self
 
     def index(self, *indx) -> 'Table':
@@ -312,6 +307,8 @@ class Table:
         if not row_pred and not kwargs:
             return self
 
+        if not self._lohis: self._sort_if_unsorted()
+
         if row_pred:
             selection = list(compress(count(),map(row_pred,self)))
             return Table(View(self._data,selection), self._columns, self._indexes)
@@ -334,6 +331,7 @@ class Table:
             return Table(View(self._data,selection), self._columns, self._indexes)
 
     def groupby(self, level:int, select:Union[Literal['count'],str,Sequence[str]]=None) -> Iterable[Tuple[Tuple,Any]]:
+        if not self._lohis: self._sort_if_unsorted()
         self._lohis = self._lohis or self._calc_lohis()
         grp_cols = [self._data[hdr] for hdr in self._indexes[:level]]
 
@@ -415,6 +413,15 @@ class Table:
     def _ipython_display_(self):
         #pretty print in jupyter notebook (https://ipython.readthedocs.io/en/stable/config/integrating.html)
         print(str(self))
+
+    def _sort_if_unsorted(self):
+        #rows can be inserted into an indexed table out of index order. Checking here, on the first
+        #query after an insert, keeps inserts of already sorted rows (see TransactionResult) cheap.
+        if self._indexes and not isinstance(self._data,View):
+            keys = list(zip(*map(self._data.__getitem__,self._indexes)))
+            if any(map(gt,keys,keys[1:])):
+                indexes,self._indexes = self._indexes,()
+                self.index(*indexes)
 
     def _calc_lohis(self):
         if not self._indexes: return {}
